@@ -77,6 +77,8 @@ func alphabet(h history, rich bool) []gen.Cell {
 	// a healthy pod whose identity label is missing: the controller must repair it with an update
 	if len(h.Revs) > 0 {
 		add(gen.Cell{Present: true, Phase: v1.PodRunning, Ready: true, Rev: len(h.Revs) - 1, NoIdent: true})
+		// a healthy pod created by an earlier incarnation of the set (other governing service)
+		add(gen.Cell{Present: true, Phase: v1.PodRunning, Ready: true, Rev: len(h.Revs) - 1, OldSvc: true})
 		add(gen.Cell{Present: true, Phase: v1.PodFailed, Term: true, Rev: len(h.Revs) - 1})
 	}
 	// a pod whose label names no stored revision
